@@ -35,6 +35,12 @@ CoverShapes ==
                                      <<SIf(Bin("==", V("i"), N(1)), <<SCont>>, <<>>), T1(<<c_f>>), SIf(Bin("==", V("NR"), N(3)), <<SBreak>>, <<>>), T1(<<c_g>>)>>),
                                 SIf(Bin("==", V("NR"), N(3)), <<SExit(N(2))>>, <<>>), T1(<<c_z>>)>>)>>, <<T1(<<c_e>>)>>, <<>>),
       << <<c_a>>, <<c_b>>, <<c_c>>, <<c_d>> >> >>,
+    \* a jump statement as the last (or only) statement of its block: the block still extends over it
+    <<"jump-is-last-statement",
+      Prog(<<>>, <<Rule(Re0(Lit(c_b)), <<SNext>>), Rule(Bin("==", V("NR"), N(3)), <<T1(<<c_n>>), SNextfile>>),
+                   Rule(NoE, <<SIf(Bin("==", V("NR"), N(1)), <<SNext>>, <<T1(<<c_o>>), SNext>>)>>), Rule(NoE, <<T1(<<c_x>>)>>)>>,
+           <<T1(<<c_e>>), SIf(Bin(">", V("NR"), N(0)), <<SExit(N(3))>>, <<>>)>>, <<>>),
+      << <<c_a>>, <<c_b>>, <<c_c>>, <<c_d>> >> >>,
     <<"do-while-and-forin",
       BeginOnly(<<SExpr(Bi("split", <<S(<<c_a, SP, c_b, SP, c_c>>), V("r")>>)), SDo(<<SExpr(Inc("++", FALSE, V("i"))), T1(<<c_d>>)>>, Bin("<", V("i"), N(3))),
                   SForIn("q", "r", <<SExpr(Inc("++", FALSE, V("n"))), SIf(Bin(">=", V("n"), N(2)), <<SBreak>>, <<>>)>>), SPrint(<<V("n")>>)>>), <<>> >>,
@@ -55,9 +61,14 @@ Next ==
          fin == Run(lp, cs.input)
          o == Outcome(fin)
      IN /\ Assert(PartitionOK(lp), <<"MODEL DEFECT: blocks do not partition the statements", cs.mech>>)
+        /\ Assert(\A old \in {NoFile, [ex |-> TRUE, lines |-> <<"mode: count", "x", "y", "z", "w">>]} :
+                     ProfileFileLaws("count", <<"b1", "b2">>, old), "MODEL DEFECT: profile file laws")
         /\ Assert(o.bad \/ Outcome(Run(cs.prog, cs.input)) = o, <<"MODEL DEFECT: labelling changed the meaning", cs.mech>>)
         /\ (~o.bad) => PrintT(ToJson([fam |-> cs.fam, mech |-> cs.mech, prog |-> lp, input |-> cs.input,
                                       expect |-> [out |-> o.out, status |-> o.status, err |-> o.err],
-                                      profile |-> Profile(lp, fin), total |-> TotalStmts(lp)]))
+                                      profile |-> Profile(lp, fin), total |-> TotalStmts(lp),
+                                      \* histories of runs on one profile path (TRUE = -coverappend), starting from
+                                      \* no file and from a longer stale file; the harness fills in the block lines
+                                      filehist |-> << <<FALSE, FALSE>>, <<FALSE, TRUE>>, <<TRUE, TRUE>>, <<TRUE, FALSE>> >>]))
 Spec == Init /\ [][Next]_vars
 =============================================================================
